@@ -45,7 +45,7 @@ def ref_ok(member) -> bool:
 
 def select_members(prop: str, tier: str, seed: int):
     if tier == "quick":
-        trivs = ["none", "ws2", "cmn", "both", "wsn"]
+        trivs = ["none", "ws2", "cmn", "both"]
     else:
         trivs = list(family.TRIVIA)
     mem = family.family(trivs)
@@ -78,6 +78,8 @@ def nks_for(prop: str, tier: str, rule: str, member) -> list[tuple[int, int]]:
     main = rule == "r"
     if not main:
         nmax = 2 if tier == "quick" else 3
+    if "LETTER" in member["features"]:
+        nmax = min(nmax, 3)
     if prop == "C05" and main:
         nmax += 1
     if prop == "C16":
@@ -113,28 +115,28 @@ def plan(prop: str, tier: str, seed: int, known: core.Known, only: str | None = 
         rules = family.start_rules(m)
         if prop in ("C03", "C04", "C05", "C16", "C02"):
             rules = ["r"] + ([r for r in rules if r != "r"] if tier == "thorough" else [])
-        for rule in rules:
-            unit = f"{m['id']}|{rule}"
-            pre = unit + "|"
-            tasks.append(
-                {
-                    "unit": unit,
-                    "prop": prop,
-                    "member": m,
-                    "rule": rule,
-                    "nks": nks_for(prop, tier, rule, m),
-                    "modes": modes_for(prop, tier, seed, m),
-                    "use_ref": prop in ("C03", "C04", "C05"),
-                    "regions": {k[len(m["id"]) + 1 :]: v for k, v in regions.items() if k.startswith(m["id"] + "|" + rule + "|")},
-                    "max_paths": 6000 if tier == "quick" else 40000,
-                    "budget_s": 90 if tier == "quick" else 600,
-                }
-            )
+        unit = m["id"]
+        tasks.append(
+            {
+                "unit": unit,
+                "prop": prop,
+                "member": m,
+                "rules": [(rule, nks_for(prop, tier, rule, m)) for rule in rules],
+                "modes": modes_for(prop, tier, seed, m),
+                "use_ref": prop in ("C03", "C04", "C05"),
+                "regions": {k[len(unit) + 1 :]: v for k, v in regions.items() if k.startswith(unit + "|")},
+                "max_paths": 6000 if tier == "quick" else 40000,
+                "budget_s": 90 if tier == "quick" else 600,
+            }
+        )
     return tasks
 
 
 def _init():
     famcheck.copy_a()
+
+
+EXTRA: dict = {}
 
 
 def preflight(prop: str):
@@ -157,12 +159,16 @@ def main(prop: str, tier: str, seed: int, only: str | None = None, record: str |
         return core.EXIT_HARNESS
     tasks = plan(prop, tier, seed, known, only)
     print(f"{prop} {tier}: {len(tasks)} units", flush=True)
-    results = core.run_units(famcheck.run_member, tasks, init=_init)
+    for t in tasks:
+        t["fn"] = "family"
+    extra_tasks, extra_note = EXTRA[prop](tier, seed, known) if prop in EXTRA else ([], {})
+    results = core.run_units(None, tasks + extra_tasks, init=_init)
+    extra.update(extra_note)
     from . import rxstub
 
     if record:
         _record(prop, results, record)
-    nmax = max((n for t in tasks for n, _ in t["nks"]), default=0)
+    nmax = max((n for t in tasks if "rules" in t for _r, nks in t["rules"] for n, _ in nks), default=0)
     return core.finish(
         prop,
         tier,
@@ -179,7 +185,7 @@ def main(prop: str, tier: str, seed: int, only: str | None = None, record: str |
         assumptions=ASSUME_COMMON,
         extra_cov=extra,
         functions=FUNCTIONS,
-        bounds={"max_len": nmax, "family": "F1" + ("+F2(seed)" if tier == "thorough" else ""), "modes": sorted({m for t in tasks for m in t["modes"]})[:12]},
+        bounds={"max_len": nmax, "family": "F1" + ("+F2(seed)" if tier == "thorough" else ""), "modes": sorted({m for t in tasks if "modes" in t for m in t["modes"]})[:12]},
         known=known,
     )
 
@@ -195,7 +201,7 @@ def _record(prop, results, path):
             if f["status"] == "new":
                 by_key.setdefault(f["key"], []).append(f)
         for key, fs in by_key.items():
-            out[f"{prop}|{r['unit'].split('|')[0]}|{key}"] = {
+            out[f"{prop}|{r['unit']}|{key}"] = {
                 "vars": sorted({v for f in fs for v in f["vars"]}),
                 "paths": [f["pc"] for f in fs],
                 "kinds": sorted({f["kind"] for f in fs}),
